@@ -27,9 +27,19 @@ pub async fn reads_cmd(rep: &mut Report, table: &str, rf: u8) {
         if quick && ri % 3 != 0 {
             continue;
         }
+      // phase 0: the watermark is derived from the on-disk counts when the actor is given the database;
+      // phase 1: the actor is running before the events exist and learns about the quorum-confirmed transactions through
+      // live ConfirmTransaction messages, last transaction first (an event nobody reported has no entry: a hole)
+      for phase in 0..2u8 {
         rep.eval(1);
         let dir = fresh_dir(&root, "h");
         let db = open_db(&dir, 1);
+        if phase == 1 {
+            if let Err(e) = reset(&cluster, db.clone()).await {
+                rep.violation("c07:reset", json!({"problem": e}), json!({"row": row}));
+                continue;
+            }
+        }
         let p = (ri % 2) as u16;
         let key = key_for_partition(p, 77 + ri as u128);
         let mut vers = Default::default();
@@ -51,9 +61,34 @@ pub async fn reads_cmd(rep: &mut Report, table: &str, rf: u8) {
         assert_eq!(w, row["w"].as_u64().unwrap(), "harness mirror of Gating!W disagrees with the table for {row}");
         let va = evs.iter().filter(|e| e.seq < w && e.stream == "a").count() as u64;
         assert_eq!(va, row["va"].as_u64().unwrap());
-        if let Err(e) = reset(&cluster, db.clone()).await {
-            rep.violation("c07:reset", json!({"problem": e}), json!({"row": row}));
-            continue;
+        if phase == 0 {
+            if let Err(e) = reset(&cluster, db.clone()).await {
+                rep.violation("c07:reset", json!({"problem": e}), json!({"row": row}));
+                continue;
+            }
+        } else {
+            // transactions = maximal runs of events with the same transaction id
+            let mut txs: Vec<Vec<&Ev>> = vec![];
+            for e in &evs {
+                match txs.last_mut() {
+                    Some(t) if t[0].tx == e.tx => t.push(e),
+                    _ => txs.push(vec![e]),
+                }
+            }
+            for t in txs.iter().rev().filter(|t| t[0].count >= quorum) {
+                let msg = sierradb_cluster::write::confirm::ConfirmTransaction {
+                    partition_id: p,
+                    transaction_id: t[0].tx,
+                    event_ids: t.iter().map(|e| e.id).collect(),
+                    confirmation_versions: t.iter().map(|e| e.seq + 1).collect(),
+                    confirmation_count: t[0].count,
+                };
+                if let Err(e) = cluster.ask(msg).await {
+                    rep.violation("c07:harness-setup", json!({"problem": format!("ConfirmTransaction failed: {e}")}), json!({"row": row}));
+                }
+            }
+            // the watermark update is told, not asked: let it settle
+            tokio::time::sleep(std::time::Duration::from_millis(15)).await;
         }
         let n = evs.len() as u64;
         let mut problems: Vec<(String, String)> = vec![];
@@ -147,11 +182,11 @@ pub async fn reads_cmd(rep: &mut Report, table: &str, rf: u8) {
             }
             Err(e) => problems.push(("partition-sequence-error".into(), format!("GetPartitionSequence failed: {e}"))),
         }
-        rep.class(format!("rf={rf} w={w} of {n}"));
+        rep.class(format!("rf={rf} w={w} of {n} phase={phase}"));
         for (what, msg) in problems {
             let key = format!("c07:exposed:{what}");
             if reported.insert(key.clone()) {
-                rep.violation(&key, json!({"problem": msg, "rf": rf, "history": row["hist"], "watermark": w}), json!({"row": row, "rf": rf}));
+                rep.violation(&key, json!({"problem": msg, "rf": rf, "history": row["hist"], "watermark": w, "phase": if phase == 0 { "watermark derived from disk" } else { "live confirmations, last first" }}), json!({"row": row, "rf": rf}));
             } else {
                 rep.violations += 1;
             }
@@ -160,6 +195,7 @@ pub async fn reads_cmd(rep: &mut Report, table: &str, rf: u8) {
             rep.sample(json!({"rf": rf, "history": row["hist"], "watermark": w, "events": n}));
         }
         db.shutdown().await;
+      }
     }
     let _ = std::fs::remove_dir_all(&root);
     rep.set("queries", json!(queries));
